@@ -122,6 +122,25 @@ theorem C05_accepts_valid (a b : Obj K) :
     ∧ ((∃ o, linComp a b = .ok o) ↔ (a.md.inShape = b.md.outShape ∧ a.md.inDt = b.md.outDt)) :=
   ⟨fun h1 h2 hs sub => addSub_accepts_generic sub a b h1 h2 hs, linComp_ok_iff a b⟩
 
+/-- **Non-linear operators: pointwise construction.**  `Operator.__add__/__sub__`, scalar `*` and `/`
+    and `Operator.__call__(Operator)` build exactly `x ↦ A(x) ± B(x)`, `c·A(x)`, `A(x)/c`,
+    `A(B(x))` (for arbitrary closures `A`, `B`), and whenever the right operand of `+`/`-` is a plain
+    `Operator` every class of left operand dispatches to that generic sum (or rejects a shape
+    mismatch). -/
+theorem C05_operator_pointwise (a b : Obj K) (c : Scal K) (x : Vc K) :
+    (∀ sub o, opAddSub sub a b = .ok o →
+        ∀ i, (o.eval x).get i = if i < a.m then pm sub ((a.eval x).get i) ((b.eval x).get i) else 0)
+    ∧ (∀ o, opMul a c = .ok o → ∀ i, (o.eval x).get i = if i < a.m then c.val * (a.eval x).get i else 0)
+    ∧ (∀ o, opDiv a c = .ok o → ∀ i, (o.eval x).get i = if i < a.m then (a.eval x).get i / c.val else 0)
+    ∧ (∀ cfg o, opComp cfg a b = .ok o → o.eval x = a.eval (b.eval x))
+    ∧ (b.cls = .op → ∀ sub, addSub Cfg.fixed sub a b
+          = (if a.sameShape b then opAddSub sub a b else .error .shape)) :=
+  ⟨fun sub o h i => (opAddSub_pointwise sub h x i).2.2.2,
+   fun o h i => opMul_pointwise c h x i,
+   fun o h i => opDiv_pointwise c h x i,
+   fun cfg o h => (opComp_pointwise cfg h x).1,
+   fun hb sub => addSub_with_operator sub a b hb⟩
+
 end
 
 /-! ### non-vacuity: the hypotheses are satisfiable on concrete trees over ℚ -/
